@@ -58,15 +58,23 @@ Definition check_sort : P (list Z) :=
             && forallb (fun u => Nat.eqb (cnt inp u) (cnt obs u)) inp in
   ret (code_if j1 1 ++ code_if j2 2)%list.
 
-(* tag 3  BULK: children later_versions nruns | status count ordered runs_identical
+(* tag 3  BULK: children later_versions nruns | status count ordered hashes windows
    one parent version; every child has one version before it and [later_versions] visible versions
    after it, so the SPECIFICATION (C11 updates_exact, last parent version) demands exactly
-   children * later_versions updates; order and run-to-run identity are observed by the harness on
-   the full result (too large to ship). *)
+   children * later_versions updates.  Run-to-run identity is decided HERE on the hashes of the
+   runs; the order is re-checked HERE on windows of the list (the full-list flag [ordered] is the
+   harness's). *)
 Definition check_bulk : P (list Z) :=
   nch <- pint ;; nver <- pint ;; nruns <- pint ;;
-  st <- pint ;; count <- pint ;; ordered <- pbool ;; identical <- pbool ;;
-  let j := (st =? 0) && (count =? nch * nver) && ordered && identical in
+  st <- pint ;; count <- pint ;; ordered <- pbool ;;
+  hashes <- plist ptok ;;                 (* 56 bits of the SHA-256 of each run's serialised result *)
+  windows <- plist (plist pupdate) ;;     (* the list around its beginning, 2^15, 2^16 and its end *)
+  let identical := match hashes with
+                   | [] => false
+                   | h :: r => forallb (Z.eqb h) r && (Z.of_nat (length hashes) =? nruns)
+                   end in
+  let j := (st =? 0) && (count =? nch * nver) && ordered && identical
+           && forallb (sortedb itv_leb) windows in
   ret (code_if j 2)%list.
 
 Definition check_case (t : toks) : list Z :=
